@@ -332,3 +332,9 @@ def m_sym_hash_order(ctx, cty, a):
 @model("verif_harness::sym::debug_str", "sym::debug_str")
 def m_sym_debug_str(ctx, cty, a):
     return unit()
+
+
+@model("verif_harness::sym::par_order", "sym::par_order")
+def m_sym_par_order(ctx, cty, a):
+    ctx.opts["par_order"] = {0: "fixed", 1: "two", 2: "all"}[a[0]]
+    return unit()
